@@ -198,6 +198,9 @@ func (i *interpreter) symBinop(op token.Token, t types.Type, x, y value) value {
 	if !okx || !oky {
 		panic(unsupported{fmt.Sprintf("symbolic binop %s on %T, %T", op, x, y)})
 	}
+	if tx.sort == SInt || ty.sort == SInt {
+		return i.intModeBinop(op, kx, tx, ty)
+	}
 	if kindWidth(kx) != kindWidth(ky) {
 		panic(unsupported{fmt.Sprintf("symbolic binop %s width mismatch %v %v", op, kx, ky)})
 	}
@@ -254,6 +257,9 @@ func (i *interpreter) symShift(op token.Token, x, y value) value {
 	ky, ty, oky := intTerm(y)
 	if !okx || !oky {
 		panic(unsupported{"symbolic shift on non-integers"})
+	}
+	if tx.sort == SInt || ty.sort == SInt {
+		panic(unsupported{"shift in integer-encoding mode"})
 	}
 	if kindSigned(ky) {
 		neg := BVCmp("bvslt", ty, BVConst(ty.sort, 0))
@@ -346,6 +352,9 @@ func (i *interpreter) symEq(t types.Type, x, y value) *Term {
 		if !ok2 {
 			panic(unsupported{fmt.Sprintf("symEq int vs %T", y)})
 		}
+		if tx.sort == SInt || ty.sort == SInt {
+			return Eq(toIntSort(tx), toIntSort(ty))
+		}
 		return Eq(tx, ty)
 	}
 	// everything else is concrete
@@ -376,6 +385,12 @@ func symConv(t_dst types.Type, x symv) value {
 		panic(unsupported{fmt.Sprintf("conversion of symbolic integer to %s", t_dst)})
 	}
 	dk := b.Kind()
+	if x.t.sort == SInt {
+		if kindWidth(dk) == 64 && kindSigned(dk) {
+			return symv{dk, x.t}
+		}
+		panic(unsupported{"narrowing/unsigned conversion in integer-encoding mode"})
+	}
 	dw, sw := kindWidth(dk), kindWidth(x.k)
 	switch {
 	case dw == sw:
@@ -388,4 +403,84 @@ func symConv(t_dst types.Type, x symv) value {
 		}
 		return mkInt(dk, ZeroExt(dw, x.t))
 	}
+}
+
+// ---- integer-encoding mode (mathematical Int terms with range side-conditions) ----
+//
+// Used for arithmetic kernels whose bit-vector encoding stalls the solvers
+// (division by a symbolic divisor).  Every intermediate result gets the side
+// condition "fits in int64", and division requires non-negative dividend and
+// positive divisor (where Go's truncation and SMT-LIB's div/mod coincide).
+// The side conditions are collected on the path and discharged as one
+// obligation ("int-mode-faithful") whenever an assertion is decided and at the
+// end of the path; if it cannot be discharged the path is inconclusive.
+
+func toIntSort(t *Term) *Term {
+	if t.sort == SInt {
+		return t
+	}
+	if t.isConst() && t.sort > 0 {
+		return IntConst(signExt64(t.sort, t.val))
+	}
+	panic(unsupported{"mixing bit-vector and integer-encoded symbolic values"})
+}
+
+var (
+	minInt64T = App("-", SInt, IntConstBig("9223372036854775808"))
+	maxInt64T = IntConstBig("9223372036854775807")
+)
+
+func IntConstBig(text string) *Term {
+	t := newTerm("const", SInt)
+	t.name = text
+	return t
+}
+
+func (i *interpreter) intModeBinop(op token.Token, k types.BasicKind, tx, ty *Term) value {
+	if !kindSigned(k) || kindWidth(k) != 64 {
+		panic(unsupported{"integer-encoding mode supports int/int64 only"})
+	}
+	x, y := toIntSort(tx), toIntSort(ty)
+	arith := func(smt string) value {
+		r := App(smt, SInt, x, y)
+		i.intSide = append(i.intSide, App("<=", SBool, minInt64T, r), App("<=", SBool, r, maxInt64T))
+		return symv{k, r}
+	}
+	switch op {
+	case token.ADD:
+		return arith("+")
+	case token.SUB:
+		return arith("-")
+	case token.MUL:
+		return arith("*")
+	case token.QUO, token.REM:
+		zero := Eq(y, IntConst(0))
+		if i.branch(zero) {
+			panic(runtimeErrorString("runtime error: integer divide by zero"))
+		}
+		i.intSide = append(i.intSide, App(">=", SBool, x, IntConst(0)), App(">", SBool, y, IntConst(0)))
+		if op == token.QUO {
+			return symv{k, App("div", SInt, x, y)}
+		}
+		return symv{k, App("mod", SInt, x, y)}
+	case token.LSS:
+		return mkBool(App("<", SBool, x, y))
+	case token.LEQ:
+		return mkBool(App("<=", SBool, x, y))
+	case token.GTR:
+		return mkBool(App(">", SBool, x, y))
+	case token.GEQ:
+		return mkBool(App(">=", SBool, x, y))
+	}
+	panic(unsupported{fmt.Sprintf("operator %s in integer-encoding mode", op)})
+}
+
+// checkIntSide discharges the accumulated faithfulness side conditions.
+func (i *interpreter) checkIntSide() {
+	if len(i.intSide) == i.intSideChecked {
+		return
+	}
+	conds := i.intSide[i.intSideChecked:]
+	i.intSideChecked = len(i.intSide)
+	i.assertHolds("int-mode-faithful", And(conds...))
 }
